@@ -17,6 +17,15 @@ CLAIMED = {
  "C08": ("ledger", "Boundary.tla (where each height/time rule flips) enumerated by TLC and executed case by case on real chains at bound-2..bound+2 over a configuration lattice + Ledger.tla timing-defect behaviours replayed on the real ValidateBlock",
          "Every rule of the property (maturity, v1 unlock-condition and signature timelocks, v2 above/after/uc policies with parent height and strict median time, v1 window and v2 proof/expiration rules for formation, revision, proof, expiration, v1/v2 eras) is stated in Boundary.tla; every (rule, configuration, bound, offset) case is built on a real chain and the real verdict compared: rejected before the bound, accepted at it. Timing defects in simulated ledger behaviours add the in-block combinations (found and fixed the revised-window proof defect).",
          LEDGER_NOTE, "DESIGN.md 5/C08"),
+ "C05": ("acc", "TLC model checking of Accumulator.tla (algorithm transcription = naive forest on all bounded forests, apply/revert) + one implementation test per TLC transition replayed through the real accumulator (export shim) with symbolic terms evaluated by the real hashes + TLC -simulate histories + real chains through the public API",
+         "Roots, leaf count and every tracked proof (old, updated, added, spent) equal the naive Merkle forest after every apply and revert for all forests within the bound; every TLC transition is replayed on real elements of all six kinds; beyond the bound the spec's definitions are evaluated over real leaf hashes for sizes to 2^12 and apply/revert interleavings to depth 12; public-API chains check ForEachTreeNode and proof maintenance.",
+         "Trusted: collision-free hashing, hterm term evaluator, the verif export shim (forwards only), TLC.", "DESIGN.md 4.2, 5/C05"),
+ "C13": ("pow", "Difficulty.tla relational clauses; TLC-enumerated timestamp-choice skeletons executed on the real ApplyHeader/ApplyBlock; every recorded step validated by TLC (DifficultyTrace.tla over BigNat)",
+         "Every recorded header application satisfies the era's clamp, non-zero work, floored-inverse relations, monotone work, header-only = full-block state and the header acceptance rule with verdicts for honest and defective headers; skeletons cross every era boundary on a lattice of network shapes.",
+         "Trusted: BigNat, ancestor timestamps supplied as a node would, difficulty < 2^200. Relational blind spots: a formula change that stays inside the clamp.", "DESIGN.md 4.3, 5/C13"),
+ "C17": ("rhp", "Contracts.tla skeletons enumerated/simulated by TLC, executed on the real RHP4 constructors; results validated by TLC (ContractsTrace.tla over BigNat: post-conditions + transcribed consensus rules) and submitted to the real ValidateV2Transaction; design model ContractsDesign.tla model-checked",
+         "Every constructor result satisfies the relational post-conditions (totals, exact usage charge, risked collateral, missed host value, rollover split and cap, cost equation) and the TLA+ transcription of consensus validity, and is accepted by the real validator on a real chain; short funding fails cleanly; v2/v3 tax inversion checked.",
+         "Trusted: parameter generator filtered by the real Validate methods, BigNat, TLC. Magnitudes below 2^110.", "DESIGN.md 4.7, 5/C17"),
  "C14": ("policy", "TLC check VerifyAlg = Meaning on the bounded policy space (Policy.tla); every TLC-evaluated (policy, witnesses, context) row replayed on the real SpendPolicy.Verify with real keys/signatures/preimages and through ValidateV2Transaction; random deep trees validated by TLC trace (PolicyTrace.tla)",
          "Transcribed verification walk equals the declarative meaning on millions of bounded cases in TLC; every expected verdict comes from TLC and is compared with the real Verify; address invariance under opaque substitution and complexity limits included.",
          "Trusted: harness key/signature generation, TLC. ed25519 unlock keys of length != 32 outside the model.", "DESIGN.md 4.4, 5/C14"),
